@@ -168,6 +168,37 @@ def kvLine : List String → String
              | .error _ => true)
           | _ => true
       if reach 200 tg.target none then pure (showFinal r) else pure "trace-miss"
+  | ["nf", kind, handler, ridx, rules, target, cond, scheme, auth, port, trace] => orBad do
+    -- filesystem assumption: stat() follows symbolic links; a trailing '/' on a non-directory and a
+    -- path below a regular file fail (ENOTDIR)
+    let k : FsKind ←
+      if kind == "reg" || kind == "lnreg" then some FsKind.regular
+      else if kind == "dir" || kind == "dirslash" || kind == "lndir" || kind == "lndirslash" then some .directory
+      else if kind == "missing" || kind == "missingslash" || kind == "lndangling" || kind == "below"
+              || kind == "regslash" then some .missing
+      else if kind == "fifo" then some .other
+      else none
+    let ridx ← ridx.toNat?
+    let ts ← parseRules rules
+    let t ← ofHex target
+    let cd ← parseCond cond
+    let sc ← hexOpt scheme
+    let au0 ← hexOpt auth
+    let au : Option Bytes := some (match au0 with
+      | some a => if a.isEmpty then ofString "server.name" else a.map toLower
+      | none => ofString "server.name")
+    let po ← port.toNat?
+    let tr ← parseTrace trace
+    match parseTarget ⟨0⟩ false t with
+    | .error e => pure s!"status {e}"
+    | .ok tg =>
+      if tr.length ≠ ts.length then none
+      let url : UrlParts := { scheme := sc, authority := au, port := po, path := tg.target,
+                              query := targetQuery tg.target }
+      pure (match (rwPhysical (handler == "1") k ridx cd url (ts.zip tr) none).1 with
+            | .goOn => "go"
+            | .comeback t' => s!"comeback {toHex t'}"
+            | _ => "failed")
   | ["alias", nc, aliases, basedir, path] => orBad do
     let al ← parsePairs aliases
     let bd ← ofHex basedir
